@@ -83,8 +83,7 @@ def findTrig (w : SWin) (k : Key) (ts : Int) (cur : Option Int) : Option Trig :=
   w.trig.find? (fun t => t.sess.key == k && slotHas t ts && stillOpen cur t)
 
 def absorb (w : SWin) (t : Trig) (r : Row) : List Trig :=
-  w.trig.map (fun u => if u.sess.key == t.sess.key && u.sess.park == t.sess.park then
-                          { u with sess := { u.sess with rows := u.sess.rows ++ [r] } } else u)
+  w.trig.map (fun u => if u == t then { u with sess := { u.sess with rows := u.sess.rows ++ [r] } } else u)
 
 def wmAfter (w : SWin) (r : Row) (now : Int) : Wm.Wm := updateEventTime w.wm r.ts now
 def lateNow (w : SWin) (r : Row) (now : Int) : Bool := isLate (wmAfter w r now) r.ts
@@ -158,8 +157,9 @@ def stepAdd (w : SWin) (k : Key) (r : Row) (now : Int) : SWin × List Emission :
 
 def expiredBy (w : SWin) (x : Int) (s : Sess) : Bool := decide (s.stop ≤ x) || decide (w.timeout < x - s.lastActive)
 
-def putTrig (l : List Trig) (t : Trig) : List Trig :=
-  (l.filter (fun u => !(u.sess.key == t.sess.key && u.sess.park == t.sess.park))) ++ [t]
+/-- every fired session is kept, whatever else of its key is still open for late rows (the implementation gives the
+entry a fresh map key when the session's own one is taken) -/
+def putTrig (l : List Trig) (t : Trig) : List Trig := l ++ [t]
 
 /-- the trigger goroutine handles one received watermark value -/
 def stepExpire (w : SWin) (x : Int) : SWin × List Emission :=
